@@ -236,6 +236,9 @@ MUTANTS = [
     ("unsafe-bounds-split-point-unordered", "C15", "R-UNSAFE-BOUNDS", "StringSlice::split", "crates/parser/src/string_slice.rs",
      "        if split_point <= self.bounds.end.to_usize() && self.data.is_char_boundary(split_point) {",
      "        if self.data.is_char_boundary(split_point) {"),
+    ("builders-on-error-uncaught-path-keeps-them", "C07", "R-BUILDERS-ON-ERROR", "execute_instructions", "crates/runtime/src/vm.rs",
+     "                        self.execution_state = ExecutionState::Inactive;\n                        self.sequence_builders.truncate(sequence_builder_count);\n                        self.string_builders.truncate(string_builder_count);\n                        return Err(error);",
+     "                        self.execution_state = ExecutionState::Inactive;\n                        self.string_builders.truncate(string_builder_count);\n                        return Err(error);"),
 ]
 
 
